@@ -448,11 +448,15 @@ func joinViews(ctx context.Context, scope *ReferenceScope, view *View, joinView 
 
 	if includeFields != nil {
 		includeIndices := NewUintPool(len(includeFields), LimitToUseUintSlicePool)
-		excludeIndices := NewUintPool(view.FieldLen()-len(includeFields), LimitToUseUintSlicePool)
+		excludeIndices := NewUintPool(len(excludeFields), LimitToUseUintSlicePool)
 		alternatives := make(map[int]int)
 
 		for i := range includeFields {
 			idx, _ := view.Header.SearchIndex(includeFields[i])
+			if includeIndices.Exists(uint(idx)) {
+				// The column is listed more than once in the USING clause. It is one join column.
+				continue
+			}
 			includeIndices.Add(uint(idx))
 
 			eidx, _ := view.Header.SearchIndex(excludeFields[i])
